@@ -64,8 +64,8 @@ def main(argv=None):
     except AnalysisError as e:
         print(f"ANALYSIS-ERROR property={pid}: {e}")
         return 2
-    except Exception:
-        print(f"ANALYSIS-ERROR property={pid}: internal error")
+    except Exception as e:
+        print(f"ANALYSIS-ERROR property={pid}: internal error ({type(e).__name__}: {str(e)[:160]}) - the code left the fragment a rule was written for")
         traceback.print_exc()
         return 2
     return rc
